@@ -944,26 +944,47 @@ impl<'a> Cx<'a> {
                 return Ok(Tx { pre: x.pre, term: format!("(Rs.errorFromValue {})", x.term), ty: LT::ErrT });
             }
         }
-        // `self.m(args)` in expression position where `m` takes `&mut self`, is not translated and answers a scalar: an effect whose
-        // answer is an input of the generated function (every place is re-read afterwards)
-        if !self.vm_mode && self.path_of(&m.receiver).as_deref() == Some("self") && !self.callees.contains_key(&name) {
-            if let Some(rt) = self.mut_self_method_ret(&name) {
-                let lt = self.conv(&rt);
-                if matches!(lt, LT::I(_) | LT::BV(_) | LT::Bool) {
-                    let mut pre = Vec::new();
-                    let mut texts = Vec::new();
-                    for a in args.iter() {
-                        let (p2, t) = self.arg_text(a);
-                        pre.extend(p2);
-                        texts.push(t);
+        // `self.m(args)` / `self.compiler().m(args)` in expression position where `m` is not translated and answers a scalar, an optional
+        // pair of numbers or `Result<(), CompilerError>`: an effect (logged in order, with its arguments) whose answer is an input of
+        // the generated function; after a `&mut self` callee every place is re-read
+        if !self.vm_mode && !self.callees.contains_key(&name) {
+            let rp = self.path_of(&m.receiver);
+            let owner: Option<String> = match rp.as_deref() {
+                Some("self") => self.self_ty.clone(),
+                Some("self.compiler()") if self.self_ty.as_deref() == Some("Parser") => Some("Compiler".to_string()),
+                _ => None,
+            };
+            if let (Some(owner), Some(rp)) = (owner, rp) {
+                if let Some((is_mut, rt)) = self.method_sig_on(&owner, &name) {
+                    let lt = self.conv(&rt);
+                    let pair = LT::Opt(Box::new(LT::Tup(vec![LT::I("usize"), LT::I("usize")])));
+                    let res = LT::Res(Box::new(LT::Unit), Box::new(LT::Enum("CompilerError".into())));
+                    let wanted = matches!(lt, LT::I(_) | LT::BV(_) | LT::Bool) || lt == pair || lt == res;
+                    // 0-argument readers of the parser itself (`chunk()`, `compiler()`, ...) stay places
+                    let reader = args.is_empty() && !is_mut && rp == "self";
+                    if wanted && !reader && (is_mut || rp != "self" || !args.is_empty()) {
+                        if let LT::Res(_, e) = &lt {
+                            if let LT::Enum(n) = &**e {
+                                self.enums_used.insert(n.clone());
+                            }
+                        }
+                        let mut pre = Vec::new();
+                        let mut texts = Vec::new();
+                        for a in args.iter() {
+                            let (p2, t) = self.arg_text(a);
+                            pre.extend(p2);
+                            texts.push(t);
+                        }
+                        self.has_effects = true;
+                        pre.push(Pre::Let("effs_".to_string(), format!("effs_ ++ [Rs.Eff.mk {} [{}]]", lean_str(&format!("{}.{}", rp, name)), texts.join(", "))));
+                        if is_mut {
+                            self.invalidate_places();
+                        }
+                        let v = self.fresh(&format!("ans_{}", name));
+                        let lean = self.declare(&v, lt.clone());
+                        self.inputs.push((lean.clone(), lt.clone(), format!("what the untranslated `{}.{}(..)` answers (call in expression position)", rp, name)));
+                        return Ok(Tx { pre, term: lean, ty: lt });
                     }
-                    self.has_effects = true;
-                    pre.push(Pre::Let("effs_".to_string(), format!("effs_ ++ [Rs.Eff.mk {} [{}]]", lean_str(&format!("self.{}", name)), texts.join(", "))));
-                    self.invalidate_places();
-                    let v = self.fresh(&format!("ans_{}", name));
-                    let lean = self.declare(&v, lt.clone());
-                    self.inputs.push((lean.clone(), lt.clone(), format!("what the untranslated `self.{}(..)` answers (call in expression position)", name)));
-                    return Ok(Tx { pre, term: lean, ty: lt });
                 }
             }
         }
